@@ -154,7 +154,16 @@ func (w *dnsWorld) c07AfterOp(op *dnsOp) {
 				return
 			}
 			if !a.empty && (len(ids) != 1 || ids[0] != a.id) {
-				s.Failf("c07-accepted-answer-not-delivered"+rs.negClass(), "question %s %s: answer a%d from %s is accepted by the response rules but the client received %v\n%s",
+				cls := rs.negClass()
+				// The client got an answer this upstream had sent EARLIER, for the same question,
+				// over another connection: a stale reply handed over through a pooled response
+				// slot (the open responseSlotPool finding, F2), not a routing decision.
+				if len(ids) == 1 && cls == "" {
+					if d := w.ansByID(ids[0]); d != nil && d.id != a.id && d.name == op.name && d.qtype == op.qtype && d.forQuery != nil && d.forQuery.tcp && q.tcp && d.forQuery.tc != q.tc && d.sentStep < q.step {
+						cls = "@stale-reply-of-another-connection"
+					}
+				}
+				s.Failf("c07-accepted-answer-not-delivered"+cls, "question %s %s: answer a%d from %s is accepted by the response rules but the client received %v\n%s",
 					op.qname, dnsmessage.TypeToString[op.qtype], a.id, w.upName(q.up), dnsAnsIDs(ids), rs.textCache)
 			}
 			return
